@@ -332,6 +332,8 @@ func runC02(c *Cfg) {
 	r := c.Rep
 	runSpecial(c, "C02", "same-name-node-types")
 	runSpecial(c, "C02", "rerun-after-stopped-concurrent-run")
+	runSpecial(c, "C02", "node-run-again-after-cancelled-run")
+	runSpecial(c, "C02", "fallback-set-twice")
 	var cases []*scen.Scenario
 	var sigs []string
 	standaloneProduct(8, func(idx int, sc *scen.Scenario, sig string) {
